@@ -491,6 +491,9 @@ func (r *FnRun) sliceContent(st *State, s SliceV) *Term {
 // (0 <= len <= cap, the backing object is allocated). Memoised per term.
 func (r *FnRun) loadedSliceInvariant(st *State, v SliceV) {
 	tb := r.tb()
+	if v.Len.hasBV || v.Base.hasBV || v.Off.hasBV || (v.Cap != nil && v.Cap.hasBV) {
+		return // loaded under a quantifier of a contract: a fact about the bound variable cannot be stated outside it
+	}
 	key := "sliceinv:" + strconv.Itoa(v.Len.id) + ":" + strconv.Itoa(v.Base.id) + ":" + strconv.Itoa(st.BA.id)
 	if r.root.counters[key] > 0 {
 		return
